@@ -1,7 +1,7 @@
 (** C07 — executable model of tlx/algorithm/parallel_multiway_merge.hpp and multiway_merge_splitting.hpp.
 
-    The model follows the C++ (with fixes/C07/01,02 applied; the shipped variants are kept under
-    [_shipped] names): removal of empty sequences, num_threads := min(p, total), exact splitting
+    The model follows the C++ (with fixes/C07/01,02 and the size < total dispatch applied; the shipped
+    variants are kept under [_shipped] names): removal of empty sequences, num_threads := min(p, total), exact splitting
     (equally_split incl. size < p and its clamp, the `tight` flag, the last partition), sampling
     splitting (sample index formula in integer arithmetic, sort, upper_bound chunk limits, absolute
     beginning/ending), per thread target_position / local_size / min(local_size, size - target_position),
@@ -158,19 +158,29 @@ Section Model.
 
   Definition nonempty (l : list A) : bool := match l with [] => false | _ => true end.
 
-  Definition pmwm_base (stable sampling : bool) (seqs : list (list A)) (size p os : nat) : option pres :=
+  (** [dispatch = true] is the code after "fix: parallel_multiway_merge() uses exact splitting when only a
+      prefix is merged": MWMSA_SAMPLING is honoured only when size = total_size, otherwise exact splitting
+      is used.  [dispatch = false] is the shipped selection `if (mwmsa == MWMSA_SAMPLING)`. *)
+  Definition use_sampling (dispatch sampling : bool) (size tot : nat) : bool :=
+    sampling && (if dispatch then size =? tot else true).
+
+  Definition pmwm_base_gen (dispatch stable sampling : bool) (seqs : list (list A)) (size p os : nat)
+    : option pres :=
     let ne := filter nonempty seqs in
     match ne with
     | (d :: _) :: _ =>
         if p =? 0 then None else
         let nt := Nat.min p (total ne) in
-        let bounds := if sampling then sampling_bounds d ne size nt os else exact_bounds ne size nt in
+        let bounds := if use_sampling dispatch sampling size (total ne)
+                      then sampling_bounds d ne size nt os else exact_bounds ne size nt in
         match run_threads stable ne size bounds with
         | Some ts => Some {| p_threads := ts; p_cursors := scatter seqs (last bounds []); p_ret := size |}
         | None => None
         end
     | _ => Some {| p_threads := []; p_cursors := zeros seqs; p_ret := 0 |}
     end.
+  Definition pmwm_base := pmwm_base_gen true.
+  Definition pmwm_base_shipped := pmwm_base_gen false.
 
   (** The four front ends: force flags, minimal k / n. *)
   Record switches : Type := { force_seq : bool; force_par : bool; min_k : nat; min_n : nat }.
